@@ -431,3 +431,13 @@ Theorem C10_tile_degree_all_sizes :
   zdegree (tile_edges c nx ny) (n_sites c * m + s) = zdegree (uc_edges c) s.
 Proof. exact tile_degree_all_sizes. Qed.
 Print Assumptions C10_tile_degree_all_sizes.
+
+(* ===== make_honeycomb(L), ALL L >= 2: u = +1 on all bonds puts every hexagon in the flux sector +1 =
+   ground_state_ansatz(6) (every hexagon is walked with three bonds along and three against their stored
+   orientation, in every cell: a property of the two faces of the cell) *)
+Theorem C10_make_honeycomb_flux_all_sizes :
+  forall n, 2 <= n ->
+  exists ps, find_all_plaquettes (to_lattice (honeycomb n)) = Some ps /\
+             forall p, In p ps -> flux_of (make_honeycomb_ujk n) p = 1.
+Proof. exact make_honeycomb_flux_all_sizes_claim. Qed.
+Print Assumptions C10_make_honeycomb_flux_all_sizes.
